@@ -258,6 +258,45 @@ def fallback_rule(T, crate, prop="C10"):
             continue
         skips = {blk for blk in w["region"] if b.term(blk)["k"] == "call" and fn_matches(b.term(blk), r"attr::skip_until_next_comma$")}
         all_skip = b.all_paths_pass(t.wild, skips, [t.join])
+        if not all_skip and skips:
+            # `_ => false` into a flag that is tested afterwards (`if !understood { skip }`): follow only the edges that are
+            # feasible for the constant the all-keys-mismatch block stores
+            dom = b.dominators(entry=t.wild)
+            consts = {}
+            for bx0 in w["region"] | {t.wild}:
+                for st in b.stmts(bx0):
+                    if st["k"] == "assign" and not st["dst"]["p"] and st["rv"]["k"] == "use" and b.local_ty(st["dst"]["l"]) == "bool":
+                        c = M.op_const(st["rv"]["op"])
+                        if c is not None and isinstance(c.get("int"), int):
+                            consts.setdefault(st["dst"]["l"], []).append((bx0, c["int"]))
+            seen_b, todo, bypass = set(), [t.wild], False
+            while todo:
+                cur_b = todo.pop()
+                if cur_b in seen_b or cur_b in skips:
+                    continue
+                seen_b.add(cur_b)
+                if cur_b == t.join:
+                    bypass = True
+                    break
+                term = b.term(cur_b)
+                succs = b.succ(cur_b)
+                if term["k"] == "switch" and op_local(term["discr"]) is not None:
+                    dl, neg = op_local(term["discr"]), False
+                    for _ in range(4):
+                        ds = [d for d in M.def_sites(b, dl) if not b.is_cleanup(d[0])]
+                        if len(ds) == 1 and ds[0][1] != "term" and ds[0][2]["rv"]["k"] == "unop" and ds[0][2]["rv"]["op"] == "Not" and op_local(ds[0][2]["rv"]["a"]) is not None:
+                            dl, neg = op_local(ds[0][2]["rv"]["a"]), not neg
+                        elif len(ds) == 1 and ds[0][1] != "term" and ds[0][2]["rv"]["k"] == "use" and op_local(ds[0][2]["rv"]["op"]) is not None:
+                            dl = op_local(ds[0][2]["rv"]["op"])
+                        else:
+                            break
+                    known = [v for (bx, v) in consts.get(dl, []) if cur_b in dom and bx in dom.get(cur_b, ())]
+                    if len(known) == 1 and len(consts.get(dl, [])) == 1:
+                        val = known[0] ^ (1 if neg else 0)
+                        zero = next((tg for v, tg in term["targets"] if v == 0), None)
+                        succs = [zero] if val == 0 and zero is not None else [term["otherwise"]] if val == 1 else succs
+                todo.extend(succs)
+            all_skip = not bypass
         ok = w["reaches_join"] and not w["err_exit"] and not w["returns_before_join"] and bool(skips) and all_skip
         r.inst(table="Serde<%s>" % x, form="direct", rejoins_loop=w["reaches_join"], can_error=w["err_exit"] or w["returns_before_join"], skips_on_every_path=all_skip, ok=ok)
         if not ok:
@@ -338,6 +377,10 @@ def value_forms(T, syn, prop="C10"):
             if t.form == "closure":
                 cf = tables.closure_fallback(t)
                 recovered = bool(cf and cf["no_error_exit"] and cf["skip_on_every_non_true_path"])
+            elif arms[k].get("failure_stays_local"):
+                # the arm runs in a closure of its own whose failure is only asked about (`.is_ok()`); what follows an
+                # unsuccessful key is the concern of C10.R5 (it is skipped)
+                recovered = True
             r.inst(position=x, key=k, serde_accepts=forms, arm_accepts=sorted(have), missing=missing, failure_recovered_per_key=recovered)
             # an arm that consumes nothing reports success; if serde also allows `key = ".."` the value is left in the stream,
             # the separator is not found, and the list fails as a whole - per-key recovery never sees a failure
@@ -449,7 +492,7 @@ def trailing_comma_rule(T, prop="C10"):
         if t is None:
             r.fail(prop, "anchor-missing table Serde<%s>" % x, "cannot recover the serde key table")
             continue
-        b = t.parent or t.body
+        b = getattr(t, "loop_body", None) or t.parent or t.body
         keys = [blk for blk, term in b.calls() if fn_matches(term, r"ParseBuffer::<'.*>::call$") and not b.is_cleanup(blk)]
         commas = [blk for blk, term in b.calls() if fn_matches(term, r"ParseBuffer::<'.*>::parse$") and "Comma" in (term.get("dst_ty") or "") and not b.is_cleanup(blk)]
         empties = [blk for blk, term in b.calls() if fn_matches(term, r"ParseBuffer::<'.*>::is_empty$") and not b.is_cleanup(blk)]
@@ -458,7 +501,9 @@ def trailing_comma_rule(T, prop="C10"):
             continue
         for cblk in commas:
             nxt = b.term(cblk).get("target")
-            ok = nxt is not None and b.all_paths_pass(nxt, empties, keys)
+            # a `?` that fails leaves parse() with an error (also when it sits in a spliced-in helper): not a way back to the key reader
+            errs = [blk for blk, term in b.calls() if fn_matches(term, r"FromResidual.*::from_residual$") and not b.is_cleanup(blk)]
+            ok = nxt is not None and b.all_paths_pass(nxt, set(empties) | set(errs), keys)
             r.inst(table="Serde<%s>" % x, comma_block=cblk, key_reader_blocks=keys, emptiness_tests=empties, tested_before_next_key=ok)
             if not ok:
                 r.fail(prop, "trailing-comma-drops-list Serde<%s>" % x,
